@@ -109,7 +109,14 @@ def filter_legal(fens):
         parts = l.split(" ")
         if parts[1] == "1":
             res.append((f, int(parts[2]), parts[3]))
+            HYP["checked"] += 1
+            if len(parts) > 4 and parts[4] != "H11" and len(HYP["failed"]) < 20:
+                HYP["failed"].append((f, parts[4]))
     return res
+
+
+# legal positions on which the executable tests of the theorems' hypothesis (pos_ok1b, rep_legalb) were evaluated
+HYP = {"checked": 0, "failed": []}
 
 
 # ---------------------------------------------------------------- placements -> FEN
